@@ -12,11 +12,12 @@ for d in sorted(glob.glob('/verif/seeded/*/meta.json')):
 n = len(rows)
 txt = '''## 12. Seeded changes
 
-%d changes were produced by fresh sub-agents in five rounds (the third, in two batches, asked explicitly for
+%d changes were produced by fresh sub-agents in six rounds (the third, in two batches, asked explicitly for
 less obvious mechanisms: unusual type parameters, rarely used entry points, error paths,
 feature interactions; the fourth for secondary clauses of the statements, silent effects,
 shared helpers and almost-equivalent clean-ups; the fifth the same, confined to the files
-the earlier rounds had hardly touched), each agent given only the text of one property and its own scratch git
+the earlier rounds had hardly touched; the sixth required changes that randomized testing
+over all type configurations would need well over 10^5 cases to hit), each agent given only the text of one property and its own scratch git
 worktree under `/tmp` (nothing from `/verif`), and asked for a change that still compiles and
 passes the whole existing test suite but breaks the property, with a demonstration. Each was
 kept only after `tools/confirm_mutant.sh` confirmed, in the scratch worktree: the patch
@@ -58,7 +59,12 @@ decoding iterators of both coders (C01, C02), in-support values with arbitrary h
 generic conversions of uniform models (C09), an exactly-fitting forward cursor (C04), uniform
 models with 64-bit probabilities (C10), 90-bit Huffman code words in bit-coder histories (C16),
 queue-decoder exhaustion and diagnostics through `&M` (C18), lookup models converted from the
-non-contiguous decoder (C05). "missed" entries for *other* properties' checks are listed for completeness; they are
+non-contiguous decoder (C05); from round 6: 'marathon' steering that keeps 36-90 words held
+back at once (all range-coder properties), a head-steering adversary and 128-bit State rows
+for the chain coder (C13), a bit-budget oracle across precision changes and seeks back within
+a word (C14), decoders suspended into raw parts and resumed (C02), a user-written seekable
+source relying on trait defaults (C07), unbounded size hints and cursor copies (C17), 100-250
+bit code words (C15), views inside ANS format messages (C06), larger explorer slices (C20). "missed" entries for *other* properties' checks are listed for completeness; they are
 outside those properties' statements.
 
 | id | change | needs to manifest | checks run (quick) |
